@@ -271,6 +271,56 @@ fn judge_single(acc: &mut Acc, v: &V, what: &str) {
 	}
 }
 
+/// One command-line invocation with a TOML target: the second input (or document) is refused with
+/// exit 1 and stdout holds nothing but the first document.
+fn cli_part(_toml: &mut TomlBatch) -> Tally {
+	use crate::proc::{self, Exit, Spawn, Stdin, WorkDir};
+	proc::assert_bins();
+	let w = WorkDir::new("c08");
+	w.write("t1.json", b"{\"a\":1}\n");
+	w.write("t2.yaml", b"b: 2\n");
+	w.write("t3.toml", b"c = 3\n");
+	w.write("t4.msgpack", b"\x81\xa1d\x04");
+	w.write("empty.json", b"{}\n");
+	w.write("arr.json", b"[1]\n");
+	w.write("null.yaml", b"n: ~\n");
+	w.write("two.json", b"{\"a\":1}\n{\"b\":2}\n");
+	let names = ["t1.json", "t2.yaml", "t3.toml", "t4.msgpack", "empty.json", "arr.json", "null.yaml", "two.json", "-"];
+	let mut t = Tally::default();
+	let mut lists: Vec<Vec<&str>> = vec![];
+	for a in names {
+		lists.push(vec![a]);
+		for b in names {
+			lists.push(vec![a, b]);
+			for c in ["t1.json", "t3.toml", "-"] {
+				lists.push(vec![a, b, c]);
+			}
+		}
+	}
+	for (i, list) in lists.iter().enumerate() {
+		let mut args = vec!["-tt"];
+		args.extend(list.iter().copied());
+		let mut sp = Spawn::new(w.path(), &args);
+		sp.stdin = Stdin::Bytes(b"s = \"stdin\"\n".to_vec());
+		sp.release = i % 2 == 0;
+		let o = proc::run(&sp);
+		t.evaluations += 1;
+		t.count("cli:toml-target-input-lists");
+		let inputs: Vec<String> = list.iter().map(|s| s.to_string()).collect();
+		let lib = super::c13::library_run(w.path(), &inputs, None, F::Toml, b"s = \"stdin\"\n");
+		let good = match (&o.exit, lib.failed_at) {
+			(Exit::Code(0), None) => o.stdout == lib.bytes,
+			// the partial output of the failing input may still sit in the stdout buffer
+			(Exit::Code(1), Some(_)) => o.stdout.starts_with(&lib.complete) && lib.bytes.starts_with(&o.stdout),
+			_ => false,
+		};
+		if !good {
+			t.bad("cli-toml-output-not-one-document", json!({"kind": "cli-toml", "argv": args}), format!("xt {args:?}: {} | one Translator gives failed_at={:?} bytes={}", o.brief(), lib.failed_at, show(&lib.bytes)));
+		}
+	}
+	t
+}
+
 pub fn run(ctx: &Ctx) -> CheckOutput {
 	let thorough = ctx.thorough();
 	let alpha = alphabet();
@@ -349,7 +399,9 @@ pub fn run(ctx: &Ctx) -> CheckOutput {
 			acc.t.sample(4, || json!({"toml_single": what, "value": v.dump()}));
 		}
 	});
+	let cli = cli_part(&mut TomlBatch::default());
 	let mut tally = Tally::default();
+	tally.merge(cli);
 	let mut toml = TomlBatch::default();
 	for a in ah.into_iter().chain(ai) {
 		tally.merge(a.t);
@@ -374,11 +426,11 @@ pub fn run(ctx: &Ctx) -> CheckOutput {
 		tally.bad(class, case.clone(), format!("{desc}: TOML output {}: {detail}", show(out)));
 	}
 	let req = |k: &str| (k.to_string(), *tally.counters.get(k).unwrap_or(&0));
-	let required = vec![req("histories:len1"), req("histories:len2"), req("histories:len3"), req("single:accept-expected"), req("single:refusal-expected"), req("single:outside-common-model"), req("toml-outputs-read-by-tomllib")];
+	let required = vec![req("histories:len1"), req("histories:len2"), req("histories:len3"), req("single:accept-expected"), req("single:refusal-expected"), req("single:outside-common-model"), req("toml-outputs-read-by-tomllib"), req("cli:toml-target-input-lists")];
 	CheckOutput {
 		level: "model_checking",
 		tally,
-		rule: format!("(H) alphabet of {} inputs (per source format: table, second table, empty table, array root, scalar root, null inside, 0 documents, 2 documents, empty table + table, syntax error; slice and reader); all histories of 1 and 2 calls and {} of 3 calls on ONE Translator(TOML), judged against a reference model (a document is refused once any document was presented before it; accepted iff table-rooted, null-free, ints within i64, string keys); per call the bytes appended must be exactly that document's TOML or nothing, the total must be nothing or ONE document that Python tomllib parses, equal to the table-reordered value. (I) every map-rooted tree with <= {} nodes, and every way of planting null / u64 / non-string key / binary / null-in-array at any node of it; non-table roots; every string of the string family as key (top-level and nested); array shapes (heterogeneous, of tables, of arrays of tables, mixed); from JSON, YAML and MessagePack, slice and reader.", alpha.len(), "all", n),
+		rule: format!("(H) alphabet of {} inputs (per source format: table, second table, empty table, array root, scalar root, null inside, 0 documents, 2 documents, empty table + table, syntax error; slice and reader); all histories of 1 and 2 calls and {} of 3 calls on ONE Translator(TOML), judged against a reference model (a document is refused once any document was presented before it; accepted iff table-rooted, null-free, ints within i64, string keys); per call the bytes appended must be exactly that document's TOML or nothing, the total must be nothing or ONE document that Python tomllib parses, equal to the table-reordered value. (I) every map-rooted tree with <= {} nodes, and every way of planting null / u64 / non-string key / binary / null-in-array at any node of it; non-table roots; every string of the string family as key (top-level and nested); array shapes (heterogeneous, of tables, of arrays of tables, mixed); from JSON, YAML and MessagePack, slice and reader. (CLI) every list of 1-3 inputs over 9 files/stdin with -t toml through the real binary: exit status and stdout equal those of ONE in-process Translator (the second document or input is refused, stdout holds the first document only).", alpha.len(), "all", n),
 		exhaustive: true,
 		bounds: json!({"history_depth": 3, "tree_nodes": n}),
 		assumptions: vec![
